@@ -20,7 +20,7 @@ ASSUMPTIONS = [
 ]
 EXHAUSTIVE_WHEN_PARTS = True
 
-FORMS = ["numeric", "backward_label", "forward_label", "backward_label_expr", "backward_label_macro", "numeric_bank0", "backward_label_after_incbin", "symbol_target_assigned_later", "qualified_target", "label_in_macro_applied_twice", "backward_label_behind_incbin", "target_outside_hollow_scopes"]
+FORMS = ["numeric", "backward_label", "forward_label", "backward_label_expr", "backward_label_macro", "numeric_bank0", "backward_label_after_incbin", "symbol_target_assigned_later", "qualified_target", "label_in_macro_applied_twice", "backward_label_behind_incbin", "target_outside_hollow_scopes", "after_application_expanding_to_nothing"]
 RELOCS = ["none", "reloc_rom", "reloc_rom_near", "reloc_ram", "org_ram", "reloc_ram_near_storage", "resume_after_reloc", "resume_after_reloc_gap"]
 
 
@@ -148,6 +148,14 @@ def build(rom: str, m: str, d: int, place: int, form: str, reloc: str):
         inner = "wait:\n" + filler(n) + f"{m} wait\n"
         body = [".if 1 {\n" + inner + "}\n", ".if 0 {\nnop\n} else {\n" + inner + "}\n", inner][d % 3]
         src = head + ".macro poll() {\n" + body + "}\npoll()\npoll()\n"
+        return src, adv(rom, run, n), run, adv(rom, stored, n)
+    if form == "after_application_expanding_to_nothing":
+        # a helper whose body is switched off is applied first; the loop lives in one named scope, the branch in the next one, to the first's label
+        n = -d - 2
+        if n < 0:
+            return None
+        src = (head + ".macro traceq() {\n.if 0 {\nnop\n}\n}\ntraceq()\n" + ".scope firstq {\ntgt:\n" + filler(n) + "}\n" +
+               f".scope secondq {{\ntgt:\n{m} firstq.tgt\n}}\n")
         return src, adv(rom, run, n), run, adv(rom, stored, n)
     if form == "target_outside_hollow_scopes":
         # the branch stands in blocks (or in the body of a macro without parameters) that define nothing themselves; its target is further out
